@@ -2,7 +2,7 @@
    PARTIAL (see C01.v for the reason): decision rules + facts about how the
    recorded dependency set is maintained. *)
 From Coq Require Import ZArith List.
-From Redo Require Import Base.Bytes Build.Model Build.LocalProofs Build.FailProofs Build.CleanProofs Build.CleanDb.
+From Redo Require Import Base.Bytes Build.Model Build.LocalProofs Build.FailProofs Build.CleanProofs Build.CleanDb Build.Settle.
 
 Theorem C02_never_built_runs : forall fuel runid cyc w c f r mx seen,
   existsb (Nat.eqb f) seen = false ->
@@ -161,4 +161,54 @@ Example C02_repeated_example :
   let rk := fun g => (20 - g)%nat in
   forallb (quiet_row_b R w rk S) S = true /\ forallb (settled_b R w) S = true
   /\ forallb (requested_b rk S w) (T :: m :: nil) = true.
+Proof. vm_compute. repeat split. Qed.
+
+(* ---- SOUNDNESS OF "CLEAN" over the builder's whole walk (Build/Settle.v).
+   During a run R the rows the run has dealt with are SETTLED (ok): not failed,
+   the recorded stamp is the file's, every redo-ifcreate path absent, every
+   recorded redo-ifchange dependency settled too.  The invariant INV ("every row
+   marked in this run and not failed is settled") is kept by the builder's
+   dirtiness walk -- database writes, stale copies written back, generated files
+   that have disappeared forgotten -- and a CLEAN verdict means settled
+   (is_dirty_INV, induction over the fuel and the dependency list).  At the
+   start of a run nothing is marked, so: on every well-formed database (row names
+   distinct, a rank on names decreasing along every recorded redo-ifchange edge,
+   no edge to //ALWAYS, no run id above R), for every file system, target and
+   fuel, if the FIRST check of run R answers CLEAN then the target and its whole
+   recorded closure are settled -- nothing that redo-ifchange declines to
+   rebuild is out of step with its recorded inputs -- and the settled rows are a
+   quiet set, to which C02_quiet_command_noop / C02_repeated_builds_run_nothing
+   apply: nothing runs later either.  With C02_moved_on_dep_not_clean (a bad
+   edge is never clean) the verdict CLEAN is characterised from both sides. *)
+Theorem C02_clean_verdict_is_sound : forall R rk fuel w f v w' c' evs,
+  (0 < R)%Z -> wfw_b R rk w = true -> fresh_b R w = true -> valid_b w f = true -> is_alw w f = false ->
+  is_dirty fuel R nil w ChkDb f (load R (dbs w) f) R nil = Ret (v, w', c', evs) ->
+  fs w' = fs w /\ (v = VClean -> ok R w' nil f /\ QUIET R (rkf rk w') (ok R w' nil) w').
+Proof. exact clean_means_settled_b. Qed.
+Check C02_clean_verdict_is_sound : forall R rk fuel w f v w' c' evs,
+  (0 < R)%Z -> wfw_b R rk w = true -> fresh_b R w = true -> valid_b w f = true -> is_alw w f = false ->
+  is_dirty fuel R nil w ChkDb f (load R (dbs w) f) R nil = Ret (v, w', c', evs) ->
+  fs w' = fs w /\ (v = VClean -> ok R w' nil f /\ QUIET R (rkf rk w') (ok R w' nil) w').
+Print Assumptions C02_clean_verdict_is_sound.
+
+(* the invariant itself, for every later check of the run and every set [ex] of
+   targets in mid-build that lie above what is being checked *)
+Theorem C02_walk_keeps_settled : forall R, (0 < R)%Z -> forall rk ex fuel, check_spec R rk ex fuel.
+Proof. exact is_dirty_INV. Qed.
+Print Assumptions C02_walk_keeps_settled.
+
+(* non-vacuity: the state reached by building T <- {m*, s}, m* <- s, looked at
+   with the next run id: well formed, fresh, and the check of T is CLEAN *)
+Example C02_clean_sound_example :
+  let mk deps stamp p := {| s_deps := deps; s_ifcreate := (119%N :: nil) :: nil; s_always := false; s_stamp := stamp;
+                            s_out := OStdout; s_payload := p; s_cat := true; s_exit := 0%Z; s_tol := false |} in
+  let T := (84 :: nil)%N in let m := (109 :: nil)%N in let s := (115 :: nil)%N in
+  let h := SWrite s (1%N :: nil) :: SWriteDo (T ++ b_do) (mk (m :: s :: nil) false 10%N)
+           :: SWriteDo (m ++ b_do) (mk (s :: nil) true 20%N) :: SCmd (CIfChange false (T :: nil)) :: nil in
+  let w := fst (last (run_history h (init_world 0)) (init_world 0, None)) in
+  let R := (maxrun (dbs w) + 1)%Z in
+  let rk := fun n : name => match n with (84 :: nil)%N => 3%nat | (109 :: nil)%N => 2%nat | _ => 1%nat end in
+  wfw_b R rk w = true /\ fresh_b R w = true /\ valid_b w 2%nat = true /\ is_alw w 2%nat = false
+  /\ match is_dirty 40 R nil w ChkDb 2%nat (load R (dbs w) 2%nat) R nil with
+     | Ret (VClean, _, _, _) => True | _ => False end.
 Proof. vm_compute. repeat split. Qed.
